@@ -594,9 +594,9 @@ pub struct Expect {
     pub ret_img: Vec<u8>,
     pub used: bool,
 }
-static mut EXPECT: Option<Expect> = None;
+pub static mut EXPECT: Option<Expect> = None;
 static mut CALLS: String = String::new(); // preallocated in main
-static mut SNAP: String = String::new(); // memory snapshot taken inside the host call
+pub static mut SNAP: String = String::new(); // memory snapshot taken inside the host call
 
 fn hex(bytes: &[u8], out: &mut String) {
     const H: &[u8; 16] = b"0123456789abcdef";
@@ -645,6 +645,24 @@ pub fn host_import(module: &'static str, name: &'static str, args: &[u64]) -> u6
             CALLS.push_str(&a.to_string());
         }
         let mut ret = 0u64;
+        if name.starts_with("[task-return]") {
+            marker(M_TASK_RETURN);
+            if !TASK_RETURNS.is_empty() {
+                TASK_RETURNS.push(';');
+            }
+            TASK_RETURNS.push_str(name);
+            TASK_RETURNS.push('|');
+            TASK_RETURNS.push_str(&args.iter().map(|a| a.to_string()).collect::<Vec<_>>().join(","));
+            let mut extra = Vec::new();
+            if TASK_RETURN_IND > 0 && !args.is_empty() {
+                extra.push((args[0] as usize, TASK_RETURN_IND));
+            }
+            SNAP.clear();
+            snapshot(&extra, &mut SNAP);
+            marker(M_HOST_EXIT);
+            TRACK = t;
+            return 0;
+        }
         let hooked = match IMPORT_HOOK {
             Some(h) if !name.starts_with("[resource-") => h(module, name, args),
             _ => None,
@@ -697,6 +715,17 @@ pub static mut BOXES: Vec<u64> = Vec::new(); // rep pointers of exported-resourc
 pub static mut HEV: Vec<String> = Vec::new(); // event log of the host table and of the guest's value lifecycle
 pub static mut DTOR: Option<unsafe fn(*mut u8)> = None; // the exported destructor (registered by the module)
 pub static mut IMPORT_HOOK: Option<fn(&str, &str, &[u64]) -> Option<u64>> = None;
+/// protocol extension (rt_async.rs registers the async commands here)
+pub static mut EXT_CMD: Option<fn(&[&str], &[Module]) -> Option<String>> = None;
+/// extra `key=value` fields appended to the next EXPORT/IMPORT response
+pub static mut EXTRA: String = String::new();
+/// `[task-return]` calls seen: name|args
+pub static mut TASK_RETURNS: String = String::new();
+/// called at the end of every host-driven call, before the heap is inspected (rt_async.rs: dump and reset the async host)
+pub static mut END_HOOK: Option<fn()> = None;
+pub static mut TASK_RETURN_IND: usize = 0; // size of the result area if task.return passes a pointer
+pub const M_TASK_RETURN: u32 = 13;
+pub const M_STARTED: u32 = 14;
 
 pub fn hev(s: String) {
     unsafe {
@@ -879,6 +908,16 @@ pub struct Module {
     pub import: fn(usize),
     /// one-time initialisation (registers hooks); may be a no-op
     pub init: fn(),
+    /// async exports: call the `[async-lift]` entry of export k -> status code; and its `[callback]` function
+    pub aexport: fn(usize, &[u64]) -> u64,
+    pub callback: fn(usize, u32, u32, u32) -> u32,
+}
+pub fn no_aexport(_k: usize, _a: &[u64]) -> u64 {
+    note("module-has-no-async-exports");
+    0
+}
+pub fn no_callback(_k: usize, _e0: u32, _e1: u32, _e2: u32) -> u32 {
+    0
 }
 
 fn parse_words(s: &str) -> Vec<u64> {
@@ -902,6 +941,38 @@ fn write_segments(s: &str) {
     }
 }
 
+pub fn snapshot_pub(extra: &[(usize, usize)], out: &mut String) {
+    snapshot(extra, out)
+}
+pub fn parse_words_pub(s: &str) -> Vec<u64> {
+    parse_words(s)
+}
+pub fn write_segments_pub(s: &str) {
+    write_segments(s)
+}
+pub fn set_script_pub(w: &[u64]) {
+    set_script(w)
+}
+/// start of a host-driven call: clear per-call state
+pub fn begin_call() {
+    unsafe {
+        CALLS.clear();
+        SNAP.clear();
+        EXPECT = None;
+    }
+    take_events();
+}
+/// end of a host-driven call: the standard answer fields plus `more`
+pub fn end_call(more: &str) -> String {
+    if let Some(h) = unsafe { END_HOOK } {
+        h();
+    }
+    check_redzones();
+    let under = unsafe { SPOS != SLEN };
+    let extra = unsafe { let e = EXTRA.clone(); EXTRA.clear(); e };
+    format!("OK log={} ev={} calls={} notes={}{} live={} {}{} segs={}", take_log(), take_events(), unsafe { CALLS.clone() }, take_notes(),
+        if under { "script-not-consumed;" } else { "" }, live_str(), more, extra, unsafe { SNAP.clone() })
+}
 fn live_str() -> String {
     live_tracked().iter().map(|(p, s, a)| format!("{p}:{s}:{a}")).collect::<Vec<_>>().join(",")
 }
@@ -915,6 +986,8 @@ pub fn main_loop(modules: &[Module]) {
         HT_FREE.reserve(1 << 12);
         BOXES.reserve(1 << 12);
         HEV.reserve(1 << 14);
+        EXTRA.reserve(1 << 24);
+        TASK_RETURNS.reserve(1 << 16);
         if std::env::var("GENRUN_NO_REDZONE").is_ok() {
             REDZONE = false;
         }
@@ -935,7 +1008,8 @@ pub fn main_loop(modules: &[Module]) {
     for line in stdin.lock().lines() {
         let line = line.unwrap();
         let f: Vec<&str> = line.split(' ').collect();
-        let resp = match f[0] {
+        let ext = unsafe { EXT_CMD }.and_then(|h| h(&f, modules));
+        let resp = if let Some(r) = ext { r } else { match f[0] {
             "PING" => "PONG".to_string(),
             "MODULES" => modules.iter().map(|m| m.name).collect::<Vec<_>>().join(","),
             // ALLOC size:align ...   -> addresses (allocated with the guest's allocator, tracked)
@@ -1042,9 +1116,13 @@ pub fn main_loop(modules: &[Module]) {
                     check_redzones();
                     let used = unsafe { EXPECT.as_ref().map(|e| e.used).unwrap_or(false) };
                     unsafe { EXPECT = None };
+                    if let Some(h) = unsafe { END_HOOK } {
+                        h();
+                    }
                     let under = unsafe { SPOS != SLEN };
-                    format!("OK log={} ev={} calls={} notes={}{}{} live={} segs={}", take_log(), take_events(), unsafe { CALLS.clone() }, take_notes(),
-                        if used { "" } else { "import-not-called;" }, if under { "script-not-consumed;" } else { "" }, live_str(), unsafe { SNAP.clone() })
+                    let extra = unsafe { let e = EXTRA.clone(); EXTRA.clear(); e };
+                    format!("OK log={} ev={} calls={} notes={}{}{} live={}{} segs={}", take_log(), take_events(), unsafe { CALLS.clone() }, take_notes(),
+                        if used { "" } else { "import-not-called;" }, if under { "script-not-consumed;" } else { "" }, live_str(), extra, unsafe { SNAP.clone() })
                 }
             },
             // HT ADD <kind> <own> <rep|#k>  |  HT LIFTOWN <h>  |  HT ENDCALL  |  HT DTOR <#k>  |  HT DUMP  |  HT BOXPTR <#k>
@@ -1087,7 +1165,7 @@ pub fn main_loop(modules: &[Module]) {
             }
             "QUIT" => break,
             _ => "ERR bad-command".to_string(),
-        };
+        } };
         writeln!(out, "{resp}").unwrap();
         out.flush().unwrap();
     }
